@@ -781,3 +781,166 @@ func RuleR2c(c *Ctx) {
 		sc.Undecided("closer", "-", "no function under the `)` handler decides on HasExplicitContext")
 	}
 }
+
+// RuleTW1: a walk over the directive tree goes into every subtree. Where a function
+// recurses (directly or through one other function) on the children of a directive, the
+// recursive call is reached under nothing but tests of those children (nil / length), tests
+// of the directive's kind, type assertions and error checks. A test of anything else - the
+// directive's Parent, its position, its parameters - prunes subtrees by where they sit, so
+// a Path under a method inside a URL block is never collected.
+func RuleTW1(c *Ctx) {
+	sc := c.Run.Begin("TW1", "every recursive descent into Directive.Children is guarded only by tests of the children themselves, of the directive's kind, and by error checks", 3)
+	defer sc.End()
+	children := c.Field("directive", "Directive", "Children")
+	enumT := c.Named("directive", "Enumeration")
+	if children == nil || enumT == nil {
+		sc.Undecided("anchors", "-", "unresolved anchor: Directive.Children / directive.Enumeration")
+		return
+	}
+	perFn := map[*ast.FuncDecl]int{}
+	c.P.Funcs(func(pk *pkgT, fd *ast.FuncDecl) {
+		if pk != c.P.Pkg("core") {
+			return
+		}
+		info := pk.TypesInfo
+		self, _ := info.Defs[fd.Name].(*types.Func)
+		if self == nil {
+			return
+		}
+		// range variables over a Children slice
+		childVars := map[types.Object]ast.Expr{}
+		ast.Inspect(fd.Body, func(n ast.Node) bool {
+			if rs, ok := n.(*ast.RangeStmt); ok && rs.Value != nil {
+				if sel, ok := ast.Unparen(rs.X).(*ast.SelectorExpr); ok && info.ObjectOf(sel.Sel) == children {
+					if id, ok := rs.Value.(*ast.Ident); ok {
+						childVars[info.ObjectOf(id)] = sel
+					}
+				}
+			}
+			return true
+		})
+		ast.Inspect(fd.Body, func(n ast.Node) bool {
+			call, ok := n.(*ast.CallExpr)
+			if !ok {
+				return true
+			}
+			g := Callee(info, call)
+			if g == nil || c.P.Decl(g) == nil {
+				return true
+			}
+			// recursion: g is self, or g (statically) calls self
+			rec := g == self
+			if !rec {
+				gd := c.P.Decl(g)
+				for _, h := range staticCallees(c.P, c.P.PkgOfDecl(gd).TypesInfo, gd.Body) {
+					if h == self {
+						rec = true
+					}
+				}
+			}
+			if !rec {
+				return true
+			}
+			// an argument that is E.Children or a range variable over E.Children
+			var owner ast.Expr
+			for _, a := range call.Args {
+				a = ast.Unparen(a)
+				if sel, ok := a.(*ast.SelectorExpr); ok && info.ObjectOf(sel.Sel) == children {
+					owner = sel
+				}
+				if id, ok := a.(*ast.Ident); ok {
+					if src, ok := childVars[info.ObjectOf(id)]; ok {
+						owner = src
+					}
+				}
+			}
+			if owner == nil {
+				return true
+			}
+			perFn[fd]++
+			key := fmt.Sprintf("%s#%d", c.P.DeclName(fd), perFn[fd])
+			body := innermostBody(fd, call)
+			cf := c.CFG(pk, body.body)
+			bad := ""
+			for _, fa := range cf.FactsAt(call) {
+				if fa.Derived {
+					continue
+				}
+				if !tw1Allowed(info, cf, fa, children, enumT) {
+					bad = fmt.Sprintf("%s is %v", types.ExprString(fa.Expr), fa.Truth)
+				}
+			}
+			if bad == "" {
+				sc.Holds(key, c.P.Pos(call.Pos()), "descends into "+types.ExprString(owner)+" under tests of the children, of the kind and of errors only")
+			} else {
+				sc.Violation(key, c.P.Pos(call.Pos()), "the descent into "+types.ExprString(owner)+" is conditional on "+bad+", which is neither a test of the children nor of the directive's kind: subtrees are pruned by where they sit, and the directives below (a Path under a method inside a URL block) are never visited")
+			}
+			return true
+		})
+	})
+}
+
+func tw1Allowed(info *types.Info, cf *cfgx.Func, fa cfgx.Fact, children *types.Var, enumT *types.Named) bool {
+	e := ast.Unparen(fa.Expr)
+	mentionsChildren := func(x ast.Node) bool {
+		hit := false
+		ast.Inspect(x, func(n ast.Node) bool {
+			if sel, ok := n.(*ast.SelectorExpr); ok && info.ObjectOf(sel.Sel) == children {
+				hit = true
+			}
+			return true
+		})
+		return hit
+	}
+	isKind := func(x ast.Expr) bool {
+		t := info.TypeOf(x)
+		return t != nil && types.Identical(t, enumT)
+	}
+	switch x := e.(type) {
+	case *ast.BinaryExpr:
+		switch x.Op {
+		case token.LAND, token.LOR:
+			return tw1Allowed(info, cf, cfgx.Fact{Expr: x.X, Truth: fa.Truth}, children, enumT) && tw1Allowed(info, cf, cfgx.Fact{Expr: x.Y, Truth: fa.Truth}, children, enumT)
+		case token.EQL, token.NEQ, token.LSS, token.GTR, token.LEQ, token.GEQ:
+			if mentionsChildren(x) {
+				return true
+			}
+			if isKind(x.X) || isKind(x.Y) {
+				return true
+			}
+			// error checks, loop bounds (i != len(dd))
+			if isNilIdentExpr(info, x.X) || isNilIdentExpr(info, x.Y) {
+				for _, side := range []ast.Expr{x.X, x.Y} {
+					if t := info.TypeOf(side); t != nil && isErrorLike(t) {
+						return true
+					}
+				}
+				return false
+			}
+			for _, side := range []ast.Expr{x.X, x.Y} {
+				if _, isLen := lengthExpr(info, side); isLen {
+					return true
+				}
+			}
+			return false
+		}
+	case *ast.UnaryExpr:
+		if x.Op == token.NOT {
+			return tw1Allowed(info, cf, cfgx.Fact{Expr: x.X, Truth: !fa.Truth}, children, enumT)
+		}
+	case *ast.CallExpr:
+		// predicates on the kind: d.Type().IsX()
+		if sel, ok := x.Fun.(*ast.SelectorExpr); ok && isKind(sel.X) {
+			return true
+		}
+	case *ast.Ident:
+		if def := cf.Resolve(x); def != ast.Expr(x) {
+			return tw1Allowed(info, cf, cfgx.Fact{Expr: def, Truth: fa.Truth}, children, enumT)
+		}
+		// ok of a type assertion / comma-ok
+		if _, _, ok := cf.TupleDefOf(info.ObjectOf(x)); ok {
+			return true
+		}
+	}
+	return false
+}
